@@ -196,15 +196,20 @@ def frechet_pow(A, m, E):
 
 
 class FrechetCache:
-    """Frechet derivative operators per matrix, applied to many directions."""
+    """Frechet derivative operators per matrix, applied to many directions.
+    log_op: optionally the (L, K) pair of another cache of the same matrix (shared between exponents)."""
 
-    def __init__(self, A, fn, m=None):
+    def __init__(self, A, fn, m=None, log_op=None):
         self.A = onp.asarray(A)
         self.fn = fn
         self.m = m
+        self.log_op = None
         if fn in ("log", "pow"):
-            self.L = _eigh_fun(self.A, onp.log)
-            self.K = _exp_frechet_operator(self.L)
+            if log_op is None:
+                L = _eigh_fun(self.A, onp.log)
+                log_op = (L, _exp_frechet_operator(L))
+            self.log_op = log_op
+            self.L, self.K = log_op
         if fn == "sqrt":
             self.S = _eigh_fun(self.A, lambda w: onp.sqrt(onp.maximum(w, 0.0)))
 
